@@ -200,8 +200,9 @@ class _Beam(_IModel):
         # check that the yaxis is not colinear to the fiber axis
         crossProd = np.cross(xAxis, yAxis)
         if np.linalg.norm(crossProd) <= 1e-12:
-            # create a new y-axis
-            yAxis = Normalize(np.cross([0, 0, 1], xAxis))
+            # create a new y-axis (normal to the fibre and to z, or to y for a fibre along z)
+            other = [0, 0, 1] if np.linalg.norm(np.cross([0, 0, 1], xAxis)) > 1e-12 else [0, 1, 0]
+            yAxis = Normalize(np.cross(other, xAxis))
             print(
                 f"The beam's vertical axis has been selected incorrectly (collinear with the beam x-axis).\nAxis {np.array_str(yAxis, precision=3)} has been assigned for {self.name}."
             )
